@@ -1,4 +1,5 @@
 import PPProofs.Props.C01
+import PPProofs.Props.C01Sem
 #print axioms PP.Parse.and_rest_iff_chain
 #print axioms PP.Parse.matchfirst_first
 #print axioms PP.Parse.or_longest_leftmost
@@ -18,3 +19,9 @@ import PPProofs.Props.C01
 #print axioms PP.Parse.skipWhite_skips_only_white
 #print axioms PP.Parse.preParse_is_skipWhite
 #print axioms PP.Parse.skip_then_match
+#print axioms PP.Parse.plain_parse_sound
+#print axioms PP.Parse.sem_deterministic
+#print axioms PP.Parse.plain_parse_iff_sem
+#print axioms PP.Parse.plain_parse_stable
+#print axioms PP.Parse.plain_parse_ok_excludes_fail
+#print axioms PP.Parse.plainTable_iff
